@@ -257,9 +257,13 @@ func genBound0(c *ctx, terms []string) (sx.V, []byte, string) {
 }
 
 func checkC08(c *ctx) {
-	c.Rule = "dictionaries over terms from {a,b,c}* (prefix families, near neighbours, the empty term) plus the generic vocabulary, on built / persisted+opened / merged / re-merged segments whose merges mix single-hit and general entries; automata {match-all, never, exact, prefix, Levenshtein 1-2, random regular expressions over a subset (literal . concatenation | *)} x key ranges (either bound absent; bounds equal to / between / below / above existing terms; start < end); observed: the (term, count) sequence of AutomatonIterator, Contains, Cardinality, empty result for fields without dictionary; expected: extracted DictionaryIterator model (reused scratch list) run over the dictionary the extracted parser reads from the segment's own bytes, with extracted Gallina matchers; non-trivial = dictionary with >= 3 terms and a non-trivial automaton or range"
+	c.Rule = "dictionaries over terms from {a,b,c}* (prefix families, near neighbours, the empty term) plus the generic vocabulary, on built / persisted+opened / merged / re-merged segments whose merges mix single-hit and general entries; automata {match-all, never, exact, prefix, Levenshtein 1-2, random regular expressions over a subset (literal . concatenation | *)} x key ranges (either bound absent; bounds equal to / between / below / above existing terms; start < end); observed: the (term, count) sequence of AutomatonIterator, Contains, Cardinality, empty result for fields without dictionary; expected: extracted DictionaryIterator model (reused scratch list) run over the dictionary the extracted parser reads from the segment's own bytes, with extracted Gallina matchers; plus one segment of 131136 documents (offsets beyond 2 MiB, a bitmap over three containers and larger than 16 KiB; expected counts by construction); non-trivial = dictionary with >= 3 terms and a non-trivial automaton or range"
 	c.Assumptions = append(c.Assumptions, "vellum's FST.Search is abstracted as an ordered filter by (automaton accepts, start <= key < end); the Gallina matchers are the specification of the automata built on the Go side",
 		"Levenshtein / regexp automata are exercised on ASCII terms (vellum's automata work on UTF-8 code points, the model on bytes)")
+	if bad := largeDictionary(c); bad != "" {
+		c.Violation("C08 dictionary enumeration on a large segment\n"+bad, false)
+		return
+	}
 	rounds := c.n(60, 1200)
 	for i := 0; i < rounds; i++ {
 		// a chain: two built segments, their merge, and a re-merge
@@ -413,4 +417,61 @@ func dictObserve(seg segment.Segment, field string, a segment.Automaton, lo, hi 
 		}
 	}
 	return sx.List(out), d.Cardinality(), ""
+}
+
+// largeDictionary: one segment of 131136 documents (file offsets beyond 2 MiB, i.e. 4-byte varints
+// in the postings headers, and a term whose bitmap spans three 65536-document containers and is
+// larger than 16 KiB).  The expected counts follow from the construction; the extracted model is
+// not consulted at this size.
+func largeDictionary(c *ctx) string {
+	n := 131136
+	var b zh.Batch
+	for i := 0; i < n; i++ {
+		toks := []zh.Tok{{Term: "every", Freq: 1, Locs: []zh.Loc{{Pos: 1, Start: 0, End: 5}}}}
+		if i%3 == 0 {
+			toks = append(toks, zh.Tok{Term: "third", Freq: 2, Locs: []zh.Loc{{Pos: 2, Start: 6, End: 11}, {Pos: 3, Start: 12, End: 17}}})
+		}
+		if i%1000 == 7 {
+			toks = append(toks, zh.Tok{Term: "rare", Freq: 1})
+		}
+		b = append(b, zh.Doc{Fields: []zh.Field{zh.IDField(fmt.Sprintf("g%06d", i)),
+			{Name: "body", Stored: true, Typ: 't', Val: []byte(fmt.Sprintf("stored-value-%06d", i)), Len: uint64(len(toks)), Toks: toks}}})
+	}
+	want := map[string]uint64{"every": uint64(n), "third": uint64((n + 2) / 3), "rare": uint64((n - 7 + 999) / 1000)}
+	sb, size, err := zh.Build(b, 1026)
+	if err != nil {
+		return "build failed: " + err.Error()
+	}
+	seg, _, err := zh.PersistOpen(sb)
+	if err != nil {
+		return "persist/open failed: " + err.Error()
+	}
+	defer seg.Close()
+	c.Case("large-dictionary", true)
+	c.CountN("large_segment_bytes", int(size))
+	for _, s := range []segment.Segment{sb, seg} {
+		prov := "built"
+		if s != segment.Segment(sb) {
+			prov = "opened"
+		}
+		obs, card, bad := dictObserve(s, "body", nil, nil, nil, []string{"every", "third", "rare"})
+		if bad != "" {
+			return fmt.Sprintf("%s segment of %d documents (%d bytes), field body: %s", prov, n, size, bad)
+		}
+		if card != 3 || len(obs.L) != 3 {
+			return fmt.Sprintf("%s segment of %d documents: the dictionary of body lists %d terms, Cardinality %d; the field has 3", prov, n, len(obs.L), card)
+		}
+		for _, e := range obs.L {
+			t := string(e.L[0].B)
+			if e.L[1].N != want[t] {
+				return fmt.Sprintf("%s segment of %d documents: term %q reported with count %d, it occurs in %d documents", prov, n, t, e.L[1].N, want[t])
+			}
+			d, _ := s.Dictionary("body")
+			pl, err := d.PostingsList([]byte(t), nil, nil)
+			if err != nil || pl.Count() != want[t] {
+				return fmt.Sprintf("%s segment of %d documents: postings list of %q has Count %d (err %v), want %d", prov, n, t, pl.Count(), err, want[t])
+			}
+		}
+	}
+	return ""
 }
